@@ -313,6 +313,43 @@ func runC15(c *run.Ctx) {
 			}
 		}
 	}
+	// the bundled command-line tools
+	ugcBin, emailBin := os.Getenv("VERIF_CMD_UGC"), os.Getenv("VERIF_CMD_EMAIL")
+	if ugcBin == "" || emailBin == "" {
+		c.Cap("cmd binaries not provided (VERIF_CMD_UGC / VERIF_CMD_EMAIL unset)")
+	} else {
+		tools := []struct {
+			bin string
+			b   built
+		}{{ugcBin, build(specByName("cmd-ugc"))}, {emailBin, build(specByName("cmd-email"))}}
+		kk := 2
+		cmdAlpha := append(append([]string{}, fragCore...), "%", "%s %d", "100% sure", `<a href="/a%20b">`, "\n", "\r\n", "  ", "\t", "%!", "\x00", "é")
+		SeqsS(c, "c15cmd", cmdAlpha, 0, kk, func(in []byte, _ []int) {
+			for _, t := range tools {
+				want, pm := San(t.b.P, string(in))
+				if pm != "" {
+					continue
+				}
+				cmd := exec.Command(t.bin)
+				cmd.Stdin = bytes.NewReader(in)
+				var so, se bytes.Buffer
+				cmd.Stdout, cmd.Stderr = &so, &se
+				err := cmd.Run()
+				c.Eval()
+				c.Transitions++
+				c.NontrivialN++
+				if err != nil || so.String() != want {
+					cs := mkCase(t.b.S, in)
+					cs.Extra = json.RawMessage(`"cmd"`)
+					c.Violate("cmd|"+t.b.S.Name, fmt.Sprintf("%s printed %s (err=%v stderr=%s), the documented policy gives %s; stdin=%s", t.b.S.Name, run.Q(so.String()), err, run.Q(se.String()), run.Q(want), run.Q(string(in))), cs)
+					c.Outcome("violation|cmd")
+				} else {
+					c.Outcome("cmd-output-equals-library")
+				}
+			}
+		})
+	}
+
 	all := fragAll()
 	// whitespace-only inputs (ASCII and Unicode white space, CR/LF forms): returned unchanged by Sanitize and SanitizeBytes
 	SeqsS(c, "c15blank", []string{" ", "\t", "\n", "\r", "\v", "\f", "\u00a0", "\u0085", "\u2003", "\u3000", "\ufeff"}, 1, 4, func(in []byte, _ []int) {
@@ -370,42 +407,6 @@ func runC15(c *run.Ctx) {
 		}
 	}
 
-	// the bundled command-line tools
-	ugcBin, emailBin := os.Getenv("VERIF_CMD_UGC"), os.Getenv("VERIF_CMD_EMAIL")
-	if ugcBin == "" || emailBin == "" {
-		c.Cap("cmd binaries not provided (VERIF_CMD_UGC / VERIF_CMD_EMAIL unset)")
-	} else {
-		tools := []struct {
-			bin string
-			b   built
-		}{{ugcBin, build(specByName("cmd-ugc"))}, {emailBin, build(specByName("cmd-email"))}}
-		kk := 2
-		cmdAlpha := append(append([]string{}, fragCore...), "%", "%s %d", "100% sure", `<a href="/a%20b">`, "\n", "\r\n", "  ", "\t", "%!", "\x00", "é")
-		SeqsS(c, "c15cmd", cmdAlpha, 0, kk, func(in []byte, _ []int) {
-			for _, t := range tools {
-				want, pm := San(t.b.P, string(in))
-				if pm != "" {
-					continue
-				}
-				cmd := exec.Command(t.bin)
-				cmd.Stdin = bytes.NewReader(in)
-				var so, se bytes.Buffer
-				cmd.Stdout, cmd.Stderr = &so, &se
-				err := cmd.Run()
-				c.Eval()
-				c.Transitions++
-				c.NontrivialN++
-				if err != nil || so.String() != want {
-					cs := mkCase(t.b.S, in)
-					cs.Extra = json.RawMessage(`"cmd"`)
-					c.Violate("cmd|"+t.b.S.Name, fmt.Sprintf("%s printed %s (err=%v stderr=%s), the documented policy gives %s; stdin=%s", t.b.S.Name, run.Q(so.String()), err, run.Q(se.String()), run.Q(want), run.Q(string(in))), cs)
-					c.Outcome("violation|cmd")
-				} else {
-					c.Outcome("cmd-output-equals-library")
-				}
-			}
-		})
-	}
 }
 
 func replayC15(raw json.RawMessage) (bool, string) {
